@@ -102,6 +102,7 @@ def drive(case):
                        interrupts=[] if case["interrupt"] is None else [case["interrupt"]])
     stage_log = []
     keep = []
+    left = [0, 0]      # leftover delayed calls: scheduled, run
     extra_observers = [(lambda k: (lambda ev: None))(k) for k in range(case["nobs"])]
     for ob in extra_observers:
         globalLogPublisher.addObserver(ob)
@@ -110,7 +111,8 @@ def drive(case):
         def behave(tc, sid, st):
             stage_log.append([sid, int(reactor.seconds())])
             for dl in st["leave"]:
-                keep.append(reactor.callLater(dl, lambda: None))
+                left[0] += 1
+                keep.append(reactor.callLater(dl, lambda: left.__setitem__(1, left[1] + 1)))
             if st["logerr"]:
                 tlog.err(Failure(_UserErr("logged")))
             if st["drop"]:
@@ -160,7 +162,7 @@ def drive(case):
         events = [ev[0] for ev in res._events]
         after = list(globalLogPublisher._observers)
         obs = {"events": events, "stop": bool(res.shouldStop), "raised": raised, "stages": stage_log,
-               "pending": len(reactor.getDelayedCalls()),
+               "unrun": left[0] - left[1], "pending": len(reactor.getDelayedCalls()),
                "observers_same": len(before) == len(after) and all(a is b or a == b for a, b in zip(before, after)),
                "cleanups_left": len(tc._cleanups)}
         return obs
@@ -174,3 +176,240 @@ def drive(case):
         gc.collect()
         _runtest._log_observer.flushErrors()
         del _SINK[:]
+
+
+# ---------------- Gallina ----------------
+CLS_T = {"err": "CErr", "fail": "CFail", "skip": "CSkip", "kbd": "CKbd"}
+EV_T = {"startTest": "StartTest", "addSuccess": "AddSuccess", "addError": "AddError", "addFailure": "AddFailure",
+        "addSkip": "AddSkip", "stopTest": "StopTest"}
+
+
+def t_stage(st):
+    r = st["ret"]
+    if r[0] == "return":
+        ret = "RReturn"
+    elif r[0] == "raise":
+        ret = "(RRaise %s)" % CLS_T[r[1]]
+    elif r[0] == "later":
+        ret = "(RLater %s %s)" % (q.nat(r[1]), q.option(r[2], lambda c: CLS_T[c]))
+    else:
+        ret = "RNever"
+    return "(mkStage %s %s %s %s)" % (ret, q.lst([q.nat(x) for x in st["leave"]]), q.boolean(st["logerr"]),
+                                      q.boolean(st["drop"]))
+
+
+def term(case, o):
+    i = "(mkProgram %s %s %s %s %s %s %s %s %s %s)" % (
+        q.boolean(case["broken"]), q.boolean(case["suppress"]), q.boolean(case["store"]), q.nat(case["nobs"]),
+        q.nat(case["timeout"]), q.option(case["interrupt"], q.nat), t_stage(case["setup"]), t_stage(case["body"]),
+        t_stage(case["teardown"]), q.lst([t_stage(s) for s in case["cleanups"]]))
+    evs = []
+    for e in o["events"]:
+        if e not in EV_T:
+            raise ValueError("unexpected result event %r" % (e,))
+        evs.append(EV_T[e])
+    ob = "(mkObs %s %s %s %s %s %s %s %s)" % (
+        q.lst(evs), q.boolean(o["stop"]), q.option(o["raised"], lambda c: CLS_T[c]),
+        q.lst([q.pair(q.nat(a), q.nat(b)) for a, b in o["stages"]]), q.nat(o["unrun"]), q.nat(o["pending"]),
+        q.boolean(o["observers_same"]), q.nat(o["cleanups_left"]))
+    return q.pair(i, ob)
+
+
+def perturb(case, o):
+    o = dict(o)
+    o["cleanups_left"] = o["cleanups_left"] + 1
+    return o
+
+
+# ---------------- generation ----------------
+def st(ret=("return",), leave=(), logerr=False, drop=False):
+    return {"ret": list(ret), "leave": list(leave), "logerr": bool(logerr), "drop": bool(drop)}
+
+
+def mk(setup=None, body=None, teardown=None, cleanups=(), timeout=6, interrupt=None, broken=False, suppress=True,
+       store=True, nobs=0):
+    return {"broken": bool(broken), "suppress": bool(suppress), "store": bool(store), "nobs": nobs,
+            "timeout": timeout, "interrupt": interrupt, "setup": setup or st(), "body": body or st(),
+            "teardown": teardown or st(), "cleanups": list(cleanups)}
+
+
+def plan(case):
+    raises = case["setup"]["ret"][0] == "raise" or (case["setup"]["ret"][0] == "later"
+                                                    and case["setup"]["ret"][2] is not None)
+    pl = [case["setup"]] + ([] if raises else [case["body"], case["teardown"]]) + list(reversed(case["cleanups"]))
+    return pl
+
+
+def cut_instant(case):
+    return case["timeout"] if case["interrupt"] is None else min(case["interrupt"], case["timeout"])
+
+
+def tie_free(case):
+    """no stage Deferred due exactly at the cut instant (required of ForBrokenTwisted cases: Spec.C14.wfb)"""
+    C, t = cut_instant(case), 0
+    for s in plan(case):
+        r = s["ret"]
+        if r[0] == "later":
+            if t + r[1] == C:
+                return False
+            if t + r[1] < C:
+                t += r[1]
+            else:
+                return True
+        elif r[0] == "never":
+            return True
+    return True
+
+
+def behaviours(T):
+    """the 8 basic stage behaviours relative to what a timeout of T leaves"""
+    return [st(), st(("raise", "err")), st(("raise", "fail")), st(("later", 1, None)), st(("later", 1, "err")),
+            st(("later", T, None)), st(("later", T + 2, "fail")), st(("never",))]
+
+
+def rand_stage(rng, T):
+    r = rng.random()
+    if r < 0.35:
+        ret = ("return",)
+    elif r < 0.5:
+        ret = ("raise", rng.choice(["err", "err", "fail", "skip", "kbd"]))
+    elif r < 0.93:
+        ret = ("later", rng.choice([0, 1, 1, 2, 3, T - 1, T, T + 1]),
+               None if rng.random() < 0.7 else rng.choice(["err", "fail", "skip", "kbd"]))
+    else:
+        ret = ("never",)
+    leave = [rng.choice([0, 0, 1, 2, 3, T, T + 3]) for _ in range(rng.choice([0, 0, 0, 0, 1, 1, 2]))]
+    return st(ret, leave, rng.random() < 0.08, rng.random() < 0.08)
+
+
+def generate(rng, tier):
+    cases = []
+    T = 6
+    fixed = [
+        mk(),
+        mk(cleanups=[st(("raise", "kbd")), st()]),                              # F11 region
+        mk(cleanups=[st(), st(("later", 1, "kbd"))]),
+        mk(body=st(("raise", "kbd")), cleanups=[st(("raise", "err"))]),
+        mk(body=st(("later", 2, "fail")), teardown=st(("later", 2, None)),
+           cleanups=[st(("later", 1, None)), st(("raise", "err"))]),
+        mk(body=st(("never",)), cleanups=[st(), st()]),
+        mk(setup=st(("raise", "skip")), cleanups=[st()]),
+        mk(body=st(leave=[0])), mk(body=st(leave=[0]), broken=True),
+        mk(body=st(("later", 2, None), leave=[2, 3])),
+        mk(body=st(("later", 2, None)), teardown=st(leave=[0])),
+        mk(body=st(("later", 2, None)), teardown=st(leave=[0, 1]), broken=True),
+        mk(body=st(logerr=True)), mk(body=st(drop=True)),
+        mk(body=st(("never",), drop=True, logerr=True)),
+        mk(body=st(("later", 4, None)), interrupt=3), mk(body=st(("later", 4, None)), interrupt=4),
+        mk(body=st(("later", 4, None)), interrupt=5), mk(body=st(("never",)), interrupt=6),
+        mk(body=st(("never",)), interrupt=7, nobs=2),
+        mk(body=st(("later", 3, None)), teardown=st(("later", 2, "err")), nobs=2, suppress=False, store=False),
+        mk(body=st(("later", T, None))), mk(body=st(("later", T - 1, None)), teardown=st(("later", 1, None))),
+    ]
+    cases += fixed
+    # bounded-exhaustive core: 8 behaviours for setUp x body x tearDown x (no cleanup | one of 8)
+    core = []
+    bs = behaviours(T)
+    for a, b, c in itertools.product(bs, repeat=3):
+        for cl in [None] + bs:
+            core.append(mk(a, b, c, [] if cl is None else [cl], timeout=T))
+    want = 2300 if tier == "quick" else 4608
+    stride = max(1, len(core) // want)
+    off = rng.randrange(stride)
+    for k, c in enumerate(core):
+        if k % stride == off:
+            c = dict(c)
+            c["broken"] = rng.random() < 0.3
+            c["suppress"], c["store"] = rng.random() < 0.5, rng.random() < 0.5
+            c["nobs"] = rng.choice([0, 1, 2])
+            if not c["broken"] or tie_free(c):
+                cases.append(c)
+    n_rand = 2000 if tier == "quick" else 60000
+    while n_rand > 0:
+        Tr = rng.choice([T, T, T, 3, 9])
+        c = mk(rand_stage(rng, Tr), rand_stage(rng, Tr), rand_stage(rng, Tr),
+               [rand_stage(rng, Tr) for _ in range(rng.choice([0, 1, 1, 2, 2, 3]))], timeout=Tr,
+               interrupt=rng.choice([0, 1, 2, 3, 4, Tr - 1, Tr, Tr + 1]) if rng.random() < 0.3 else None,
+               broken=rng.random() < 0.35, suppress=rng.random() < 0.6, store=rng.random() < 0.6,
+               nobs=rng.choice([0, 0, 1, 2]))
+        if c["broken"] and not tie_free(c):
+            continue
+        cases.append(c)
+        n_rand -= 1
+    return cases
+
+
+def nontrivial(case):
+    sts = plan(case)
+    asyn = any(s["ret"][0] in ("later", "never") for s in sts)
+    unclean = any(s["ret"][0] == "raise" or (s["ret"][0] == "later" and s["ret"][2]) or s["leave"] or s["logerr"]
+                  or s["drop"] for s in sts)
+    return asyn and (unclean or case["interrupt"] is not None)
+
+
+def shrink(case):
+    def rep(**kw):
+        c = dict(case)
+        c.update(kw)
+        return c
+    for k in range(len(case["cleanups"])):
+        yield rep(cleanups=case["cleanups"][:k] + case["cleanups"][k + 1:])
+    if case["interrupt"] is not None:
+        yield rep(interrupt=None)
+    for f in ("broken", "suppress", "store"):
+        if case[f]:
+            yield rep(**{f: False})
+    if case["nobs"]:
+        yield rep(nobs=case["nobs"] - 1)
+    names = ["setup", "body", "teardown"] + [("cleanups", k) for k in range(len(case["cleanups"]))]
+    for nm in names:
+        s = case[nm] if isinstance(nm, str) else case["cleanups"][nm[1]]
+
+        def put(s2, nm=nm):
+            if isinstance(nm, str):
+                return rep(**{nm: s2})
+            cl = list(case["cleanups"])
+            cl[nm[1]] = s2
+            return rep(cleanups=cl)
+        if s["ret"] != ["return"]:
+            yield put(dict(s, ret=["return"]))
+        if s["ret"][0] == "later" and s["ret"][1] > 0:
+            yield put(dict(s, ret=["later", s["ret"][1] - 1, s["ret"][2]]))
+        for j in range(len(s["leave"])):
+            yield put(dict(s, leave=s["leave"][:j] + s["leave"][j + 1:]))
+        if s["logerr"]:
+            yield put(dict(s, logerr=False))
+        if s["drop"]:
+            yield put(dict(s, drop=False))
+
+
+def distribution(cases):
+    d = {"variant": {"plain": 0, "broken": 0}, "suppress": 0, "store": 0, "with_interrupt": 0, "cleanups": {},
+         "stage_ret": {}, "with_leftovers": 0, "with_logged_error": 0, "with_dropped_failure": 0,
+         "later_vs_cut": {"<": 0, "=": 0, ">": 0}, "extra_observers": {}}
+    for c in cases:
+        d["variant"]["broken" if c["broken"] else "plain"] += 1
+        d["suppress"] += c["suppress"]
+        d["store"] += c["store"]
+        d["with_interrupt"] += c["interrupt"] is not None
+        n = len(c["cleanups"])
+        d["cleanups"][n] = d["cleanups"].get(n, 0) + 1
+        d["extra_observers"][c["nobs"]] = d["extra_observers"].get(c["nobs"], 0) + 1
+        C, t = cut_instant(c), 0
+        alive = True
+        for s in plan(c):
+            k = s["ret"][0] if s["ret"][0] != "raise" else "raise-" + s["ret"][1]
+            d["stage_ret"][k] = d["stage_ret"].get(k, 0) + 1
+            d["with_leftovers"] += bool(s["leave"])
+            d["with_logged_error"] += s["logerr"]
+            d["with_dropped_failure"] += s["drop"]
+            if alive and s["ret"][0] == "later":
+                f = t + s["ret"][1]
+                d["later_vs_cut"]["<" if f < C else "=" if f == C else ">"] += 1
+                if f < C:
+                    t = f
+                else:
+                    alive = False
+            elif s["ret"][0] == "never":
+                alive = False
+    return d
